@@ -23,6 +23,7 @@ pub fn run(_v: &serde_json::Value, rep: &mut Report) -> Result<(), String> {
                 want = want.saturating_sub(q); sum += q as u128;
                 let listed: u128 = r.transactions.as_vec().iter().map(|t| t.quantity as u128).sum();
                 if r.transactions.as_vec().len() != k + 1 || listed != sum { rep.violation("C02", "MatchResult.add_transaction.appends", format!("initial={init} after adding {:?}: {} transactions summing to {listed}", &[a, b][..=k], r.transactions.as_vec().len())); return Ok(()); }
+                if sum <= u64::MAX as u128 && r.executed_quantity() as u128 != sum { rep.violation("C02", "MatchResult.executed_quantity.sum_of_the_transactions", format!("initial={init} after transactions {:?}: executed_quantity()={} but they sum to {sum}", &[a, b][..=k], r.executed_quantity())); return Ok(()); }
                 if r.remaining_quantity != want { rep.violation("C02", "MatchResult.add_transaction.remaining_is_initial_minus_sum", format!("initial={init} after transactions {:?}: remaining_quantity={} but initial - sum (saturating at 0) = {want}", &[a, b][..=k], r.remaining_quantity)); return Ok(()); }
                 if r.is_complete != (r.remaining_quantity == 0) { rep.violation("C02", "MatchResult.add_transaction.complete_iff_nothing_remains", format!("initial={init} after transactions {:?}: is_complete={} remaining={}", &[a, b][..=k], r.is_complete, r.remaining_quantity)); return Ok(()); }
             }
